@@ -207,8 +207,7 @@ class DataEdit:
     def rename(self, src, dst) -> DataEdit:
         """Rename key: data[src] -> data[dst]."""
         def _edit(data: MutableMapping) -> MutableMapping:
-            data[dst] = data[src]
-            del data[src]
+            data[dst] = data.pop(src)
             return data
         self._editlist.append(_edit)
         return self
